@@ -301,14 +301,14 @@ def eval_missing(item):
                     B = Gr.build(G, init=False, extra=extra)
                     rec["built"] = True
                     rec["registry_before"] = len(xp.scheduler.jobs)
-                    rec["unfinished_before"] = xp.unfinishedJobs
+                    rec["unfinished_before"] = X._count(xp.unfinishedJobs)
                     try:
                         Gr.submit(G, B, G["root"])
                         rec["root_submit"] = "accepted"
                     except Exception as e:  # noqa
                         rec["root_submit"] = f"{type(e).__name__}"
                     rec["registry_after"] = len(xp.scheduler.jobs)
-                    rec["unfinished_after_submit"] = xp.unfinishedJobs
+                    rec["unfinished_after_submit"] = X._count(xp.unfinishedJobs)
                 except Exception as e:  # noqa
                     rec["build_error"] = f"{type(e).__name__}: {e}"[:200]
         r, hub, world = V.run_world([script])
